@@ -75,6 +75,7 @@ type XOpts struct {
 	Arrays             bool
 	UserPtrs           bool
 	Unexported         bool // unexported fields (raw types only make sense with them)
+	ElemUnexported     bool // unexported fields inside the element structs of slices/arrays/maps (Pointerify keeps those)
 	DialsTags          bool
 	Desc               bool // dialsdesc tags
 	PoolNames          bool // some realistic CamelCase field names
@@ -255,10 +256,11 @@ func (g *XGen) Struct(depth int) reflect.Type {
 			sf = reflect.StructField{Name: name, Type: t, Anonymous: true}
 			structy = true
 		case o.StructElem && depth < o.MaxDepth && x < 50:
-			save := g.O.MaxDepth
+			save, saveU := g.O.MaxDepth, g.O.Unexported
 			g.O.MaxDepth = depth + 1 // shallow element struct
+			g.O.Unexported = saveU || (g.O.ElemUnexported && r.Chance(1, 2))
 			el := g.Struct(depth + 1)
-			g.O.MaxDepth = save
+			g.O.MaxDepth, g.O.Unexported = save, saveU
 			switch r.Intn(4) {
 			case 0, 1:
 				sf = reflect.StructField{Name: name, Type: reflect.SliceOf(el)}
